@@ -89,14 +89,15 @@ func (v *Vue) renderNodesWithContext(ctx VueContext, w io.Writer, nodes []*html.
 		nodeCopy = append(nodeCopy, helpers.DeepCloneNode(nodes[i]))
 	}
 
-	// Assign IDs to all v-once elements for tracking across deep clones. This is done on the
-	// copy: the parsed nodes may be cached and shared with concurrent renders.
-	for _, node := range nodeCopy {
-		assignSeenAttrs(&ctx, node)
-	}
-
 	if err := v.preProcessNodes(ctx, nodeCopy); err != nil {
 		return err
+	}
+
+	// Assign IDs to all v-once elements for tracking across deep clones. This is done on the
+	// copy: the parsed nodes may be cached and shared with concurrent renders. (After the
+	// pre-processing step: elements a processor adds or marks v-once are elements like any other.)
+	for _, node := range nodeCopy {
+		assignSeenAttrs(&ctx, node)
 	}
 
 	result, err := v.evaluate(ctx, nodeCopy, 0)
